@@ -48,12 +48,23 @@ def gen_case(cid, rng):
     for p in paths:
         if not p.endswith('.py'):
             contents.setdefault(p, 'bytes of %s\n' % p)
+    links = {}
+    if rng.random() < 0.3:
+        # a directory linked in from elsewhere (the walk follows such links)
+        lp = rng.choice(['linked', 'pkg/linked', 'pkg_extra/lnk'])
+        if roots[0] == '' or lp.startswith(tuple(r + '/' for r in roots if r)):
+            pool = ['a.py', 'a.pyc', 'gone.pyc', 'old.pyo', '__pycache__/a.cpython-312.pyc',
+                    '__pycache__/gone.cpython-312.pyc', '__pycache__/x.pyc', 'sub/b.pyo', 'sub/b.py',
+                    'sub/__pycache__/c.pyc', 'skipme/z.pyc', 'notes.txt']
+            sub = {q: 'file' for q in pool if rng.random() < 0.55}
+            sub.setdefault('__pycache__/a.cpython-312.pyc', 'file')
+            links[lp] = {'paths': sub, 'contents': {q: 'bytes of linked %s\n' % q for q in sub if not q.endswith('.py')}}
     keepsel = rng.choice(['', '', '', '-k', '--usecompiled'])
     ignore = ['skipme'] if rng.random() < 0.5 else []
     args = ['--list-tests'] + ([keepsel] if keepsel else [])
     for i in ignore:
         args += ['--ignore_dir', i]
-    return {'id': cid, 'paths': paths, 'contents': contents, 'roots': roots, 'args': args,
+    return {'id': cid, 'paths': paths, 'contents': contents, 'roots': roots, 'args': args, 'links': links,
             'keep': bool(keepsel), 'ignore': ignore,
             'path_flag': rng.choice(['--path', '--test-path'])}
 
@@ -66,11 +77,11 @@ def run(chk, tier, seed, replay=None):
                 'x.pyc.bak, pyc, X.PYC, .pyc, y.pycx, xpyc, a directory named y.py) x 13 directories '
                 '(packages, __pycache__, .git, node_modules, my-dir, 1bad, CVS, _darcs, --ignore_dir) x '
                 'roots {top}, {top, top}, {top, pkg}, {pkg, my-dir}, {pkg, pkg_extra} x {none, -k, --usecompiled} x --path / '
-                '--test-path; the file system is snapshotted (paths, hashes) before and after a --list-tests '
+                '--test-path, 30% with a directory linked in from outside the tree; the file system is snapshotted (paths, hashes) before and after a --list-tests '
                 'run and TLC judges the difference; distinct = distinct (tree, options)')
     chk.assumptions += ['a file literally named ".pyc" / ".pyo" and orphans below non-identifier or IGNORE_FOLDERS '
                         'directories are don\'t-care for completeness (the safety clauses still apply)',
-                        'symlinked directories are outside the universe']
+                        'a symlinked directory (target outside the tree) counts as a directory with the target\'s content']
     rng = random.Random(seed * 7919 + 15)
     if replay:
         with open(replay) as f:
